@@ -103,6 +103,33 @@ def run(ctx):
     # total early (sized sources stop on `parsed == total`).
     _amplify_drift(ctx, runs, packets, rng)
 
+    # ---- source selection and options that must not change framing: show_progress, text-mode files, unknown sources
+    import contextlib
+    import io as _io
+    data = _mk_stream(rng, packets, [5, 300, 1, 64], 3)
+    want = [bytes(p) for p in packets.ccsds_generator(data, skip_header_bytes=3)]
+    buf = _io.StringIO()
+    with contextlib.redirect_stdout(buf):
+        got = [bytes(p) for p in packets.ccsds_generator(_io.BytesIO(data), skip_header_bytes=3, show_progress=True, buffer_read_size_bytes=7)]
+        got2 = [bytes(p) for p in d.packet_generator(_io.BytesIO(data), ccsds_headers_only=True, skip_header_bytes=3, show_progress=True)]
+    ctx.traces += 2
+    if got != want or got2 != want:
+        ctx.violation("C02/show-progress-changes-framing", f"{len(got)}/{len(got2)} packets with show_progress, {len(want)} without", {"data": list(data), "skip": 3})
+    for label, src in (("text-mode file", _io.TextIOWrapper(_io.BytesIO(data))), ("list", [1, 2, 3]), ("str", "abc"), ("bytearray", bytearray(data))):
+        try:
+            items = []
+            for it in packets.ccsds_generator(src):
+                items.append(it)
+                if len(items) > 10:
+                    break
+            # source kinds the property does not list: behaviour recorded, not judged (accepting more kinds is not a violation)
+            ctx.tally("unlisted_source_accepted:" + label)
+        except OSError:
+            ctx.tally("unlisted_sources_refused_with_OSError")
+        except Exception as e:  # noqa: BLE001
+            ctx.tally(f"unlisted_source_{label}_raised_{type(e).__name__}")
+        ctx.traces += 1
+
     # mission files (first N packets' worth of bytes), several read sizes
     import glob
     files = sorted(glob.glob("/repo/tests/test_data/jpss/*.DAT1")) + sorted(glob.glob("/repo/tests/test_data/suda/*.bin"))
